@@ -12,7 +12,7 @@ from . import _core_common as cc
 PROP = 'C02'
 ENGINE = 'coresim'
 HASH_CLASSES = 1
-RUNS = {'quick': 400, 'thorough': 15000}
+RUNS = {'quick': 1200, 'thorough': 30000}
 RUN_TIMEOUT = 240
 DETERMINISM_RUNS = 8
 RULE = ("Same generator as C01 (non-flat, mostly non-vacuum spacetimes; "
